@@ -143,6 +143,9 @@ func (h *Handler) available(lease *Lease, ip netip.Addr) bool {
 		if v.State == StateAllocated && v.Addr.IP == ip {
 			return false
 		}
+		if v.State == StateDiscover && v.Addr.IP == ip && v.DHCPExpiry.After(time.Now()) { // negotiating again while the acknowledged address is still leased
+			return false
+		}
 	}
 	if host := h.session.FindIP(ip); host != nil && !bytes.Equal(host.MACEntry.MAC, lease.Addr.MAC) {
 		return false
